@@ -62,10 +62,15 @@ theorem c17_projection {L : Type} (f : Nat → L → L) (schedule : List Nat) (i
     method on one of the shared 256-bit constants (directly or through a local alias) or takes their address -/
 theorem c17_no_shared_writes : Gen.globalWrites = [] := no_global_writes
 
-/-- copy-on-write of instruction tables, `Cancel`, the stack pool and the abort checks are what the proofs assume -/
+/-- copy-on-write of instruction tables, `Cancel`, the stack pool and the abort checks are what the proofs assume; the only
+    reference-typed field of the by-value configuration, `ExtraEips`, is read (len, range) and replaced by a slice declared in the
+    function — the caller's backing array is never resliced, appended to or written -/
 theorem c17_sharing_facts : Gen.sharingFacts = [
     "EVM.Cancel={evm.abort.Store(true)}",
     "EVM.Cancelled={returnevm.abort.Load()}",
+    "NewEVMInterpreter:ExtraEips:len",
+    "NewEVMInterpreter:ExtraEips:range",
+    "NewEVMInterpreter:ExtraEips:replaced-by:extraEips:declared-as:varextraEips[]int",
     "NewEVMInterpreter:copy-before-enable=true",
     "copyJumpTable={dest:=*sourcefori,op:=rangesource{ifop!=nil{opCopy:=*opdest[i]=&opCopy}}return&dest}",
     "newstack={returnstackPool.Get().(*Stack)}",
